@@ -49,3 +49,19 @@ func raceReleaseMerge(addr any) { runtime.RaceReleaseMerge(addrOf(addr)) }
 
 //go:norace
 func addrOfAny(a any) unsafe.Pointer { return addrOf(a) }
+
+var ownershipZero uint64
+
+// ownershipWrite tells the race detector that releasing a pooled object is a write to the whole object by the
+// releasing goroutine (the contents are left as they are): from now on the pool may hand it to anybody, so an
+// access by a goroutine that the release is not ordered with is an access to an object with two owners. It is
+// deliberately NOT //go:norace, and not inlined into its //go:norace caller (an inlined body is not instrumented).
+// Under the cooperative scheduler nothing else runs during the loop.
+//
+//go:noinline
+func ownershipWrite(p unsafe.Pointer, n uintptr) {
+	for off := uintptr(0); off+8 <= n; off += 8 {
+		q := (*uint64)(unsafe.Add(p, off))
+		*q = *q ^ ownershipZero
+	}
+}
